@@ -306,23 +306,23 @@ func (e *Eval) cmpFormula(x *ssa.BinOp, depth int) *Formula {
 	kR, okR := constInt(R)
 	// zero tests on non-negative operands
 	if op == token.LSS && okL && kL == 0 && isNonNegative(R) { // 0 < x
-		return maybeNot(!neg, e.eqZero(R, rt))
+		return maybeNot(!neg, e.eqZero(R, rt, x))
 	}
 	if op == token.LEQ && okL && kL == 1 && isNonNegative(R) { // 1 <= x
-		return maybeNot(!neg, e.eqZero(R, rt))
+		return maybeNot(!neg, e.eqZero(R, rt, x))
 	}
 	if op == token.LSS && okR && kR == 1 && isNonNegative(L) { // x < 1
-		return maybeNot(neg, e.eqZero(L, lt))
+		return maybeNot(neg, e.eqZero(L, lt, x))
 	}
 	if op == token.LEQ && okR && kR == 0 && isNonNegative(L) { // x <= 0
-		return maybeNot(neg, e.eqZero(L, lt))
+		return maybeNot(neg, e.eqZero(L, lt, x))
 	}
 	if op == token.EQL {
 		if okR && kR == 0 && isNonNegative(L) {
-			return maybeNot(neg, e.eqZero(L, lt))
+			return maybeNot(neg, e.eqZero(L, lt, x))
 		}
 		if okL && kL == 0 && isNonNegative(R) {
-			return maybeNot(neg, e.eqZero(R, rt))
+			return maybeNot(neg, e.eqZero(R, rt, x))
 		}
 		// constant (or lexicographically larger) operand on the right
 		if _, isC := L.(*ssa.Const); isC {
@@ -333,23 +333,27 @@ func (e *Eval) cmpFormula(x *ssa.BinOp, depth int) *Formula {
 			lt, rt = rt, lt
 		}
 		t := mk("bin", "==", lt, rt)
+		t.Src = x
 		return maybeNot(neg, FAtom(t.String(), t))
 	}
 	t := mk("bin", op.String(), lt, rt)
+	t.Src = x
 	return maybeNot(neg, FAtom(t.String(), t))
 }
 
 // eqZero builds the atom "x == 0", mapping len(s)==0 on strings to s == "".
-func (e *Eval) eqZero(v ssa.Value, vt *Term) *Formula {
+func (e *Eval) eqZero(v ssa.Value, vt *Term, src ssa.Value) *Formula {
 	if c, ok := v.(*ssa.Call); ok {
 		if bi, ok := c.Call.Value.(*ssa.Builtin); ok && bi.Name() == "len" && len(c.Call.Args) == 1 {
 			if b, ok := c.Call.Args[0].Type().Underlying().(*types.Basic); ok && b.Info()&types.IsString != 0 {
 				t := mk("bin", "==", e.Term(c.Call.Args[0]), ConstString(""))
+				t.Src = src
 				return FAtom(t.String(), t)
 			}
 		}
 	}
 	t := mk("bin", "==", vt, ConstInt(0))
+	t.Src = src
 	return FAtom(t.String(), t)
 }
 
@@ -586,3 +590,62 @@ func Implies(f, g *Formula) bool {
 	eq, _, _ := Compare(FAnd(f, FNot(g)), FFalse())
 	return eq
 }
+
+// NilTest is the atom "v == nil" in canonical form.
+func (e *Eval) NilTest(v ssa.Value) *Formula {
+	t := mk("bin", "==", e.Term(v), Nil())
+	return FAtom(t.String(), t)
+}
+
+// AtomOf wraps a boolean term as an atom.
+func AtomOf(t *Term) *Formula { return FAtom(t.String(), t) }
+
+// Eq builds the canonical equality atom (a == b) with the operand order used by Bool: constants on the
+// right, otherwise lexicographic.
+func Eq(a, b *Term) *Formula {
+	if a.Op == "const" && b.Op != "const" {
+		a, b = b, a
+	} else if a.Op != "const" && b.Op != "const" && a.String() > b.String() {
+		a, b = b, a
+	}
+	t := mk("bin", "==", a, b)
+	return FAtom(t.String(), t)
+}
+
+// Bin builds a binary term.
+func Bin(op string, a, b *Term) *Term { return mk("bin", op, a, b) }
+
+// Call builds a call term.
+func Call(name string, args ...*Term) *Term { return mk("call", name, args...) }
+
+// Extract builds t#i.
+func Extract(t *Term, i int) *Term { return mk("extract", fmt.Sprint(i), t) }
+
+// Assert builds x.(T).
+func Assert(x *Term, typ string) *Term { return mk("assert", typ, x) }
+
+// Deref builds deref(t).
+func Deref(t *Term) *Term { return mk("deref", "", t) }
+
+// SliceOf builds t[lo:hi] ("" for an absent bound).
+func SliceOf(t *Term, lo, hi *Term) *Term {
+	if lo == nil {
+		lo = mk("const", "")
+	}
+	if hi == nil {
+		hi = mk("const", "")
+	}
+	return mk("slice", "", t, lo, hi)
+}
+
+// Conv builds conv<T>(t).
+func Conv(typ string, t *Term) *Term { return mk("conv", typ, t) }
+
+// After builds after(callee; t): the content of an object after a call that may have modified it.
+func After(callee string, t *Term) *Term { return mk("after", callee, t) }
+
+// CopyOf builds copyof(t): the content of an object after copy(obj[:], t).
+func CopyOf(t *Term) *Term { return mk("copyof", "", t) }
+
+// Addr builds addr(t): the address of the object whose content/designator is t.
+func Addr(t *Term) *Term { return mk("addr", "", t) }
